@@ -204,7 +204,7 @@ class Harness:
         build.cc([HARNESS_SRC] + objs, self.exe, objdir, extra=build.LINK_LIBS + ["-DLIBMCOUNT", "-DC01_WITH_PLT"])
         self.n = 0
 
-    def run(self, lines, nshow, env=None):
+    def run(self, lines, nshow, env=None, rev=False):
         self.n += 1
         d = os.path.join(self.ctx.scratch, "c01d%d" % (self.n % 4))
         shutil.rmtree(d, ignore_errors=True)
@@ -214,7 +214,7 @@ class Harness:
                   "UFTRACE_BUFFER": str(1 << 20)})
         if env:
             e.update({k: str(v) for k, v in env.items()})
-        p = subprocess.run([self.exe, str(nshow)], input="\n".join(lines) + "\nQUIT\n", env=e,
+        p = subprocess.run([self.exe, str(nshow)] + (["rev"] if rev else []), input="\n".join(lines) + "\nQUIT\n", env=e,
                            capture_output=True, text=True, timeout=60)
         for f in os.listdir(d):
             if f.startswith("sid-"):
@@ -260,6 +260,75 @@ def run_shadow_case(h, tree, env):
     rc, out, err = h.run(harness_lines(ops, owner), nshow, env)
     crashed = rc != 0 or len(out) != len(ops)
     return parse_shadow(tree, ops, owner, out, nshow, env, crashed, err)
+
+
+def run_est_case(h, tree):
+    """the tree under --estimate-return (UFTRACE_ESTIMATE_RETURN): slots live at decreasing addresses"""
+    ops, owner = full(tree)
+    nshow = tree_depth(tree) + 2
+    rc, out, err = h.run(harness_lines(ops, owner), nshow, {"UFTRACE_ESTIMATE_RETURN": "1", "UFTRACE_TRIGGER": TRIGGER}, rev=True)
+    crashed = rc != 0 or len(out) != len(ops)
+    return parse_shadow(tree, ops, owner, out, nshow, {"UFTRACE_ESTIMATE_RETURN": "1"}, crashed, err)
+
+
+def run_sched_case(h, trees, rng):
+    """several trees, one per thread (thread 0 = initial thread), their operations interleaved at random"""
+    per = []
+    for t, tree in enumerate(trees):
+        ops, owner = full(tree)
+        per.append(list(zip(ops, owner, harness_lines(ops, owner))))
+    pos = [0] * len(per)
+    sched, lines, cur = [], [], None
+    while any(pos[t] < len(per[t]) for t in range(len(per))):
+        t = rng.choice([t for t in range(len(per)) if pos[t] < len(per[t])])
+        burst = rng.choice([1, 1, 2, 5])
+        for _ in range(burst):
+            if pos[t] >= len(per[t]):
+                break
+            if cur != t:
+                lines.append("T %d" % t)
+                cur = t
+            o, n, line = per[t][pos[t]]
+            sched.append((t, o, n))
+            lines.append(line)
+            pos[t] += 1
+    nshow = max(tree_depth(t) for t in trees) + 2
+    rc, out, err = h.run(lines, nshow, {})
+    if rc != 0 or len(out) != len(sched):
+        return {"crashed": True, "stderr": err[-300:], "trees": trees}
+    obs, errno_ok = [], []
+    for (t, o, n), line in zip(sched, out):
+        left, _, right = line.partition(" | ")
+        k = left.split()
+        snap = right.split()
+        u = "UNone"
+        if k[0] in ("E", "PE"):
+            if k[0] == "E" and int(k[1]) != 0:
+                n.h = "N"
+            errno_ok.append(k[2] == "1")
+        elif k[0] in ("CE", "CX"):
+            errno_ok.append(k[1] == "1")
+        elif k[0] == "R":
+            u = "URet %d (%s)" % (int(k[1]), coq_word(k[2]))
+            errno_ok.append(k[3] == "1")
+        obs.append((u, int(snap[0]), snap[1:nshow + 1]))
+    sched2 = [(t, o2) for (t, _, _), o2 in zip(sched, [None] * len(sched))]
+    # operations again, with the hooks libmcount really took
+    per2 = [full(tree)[0] for tree in trees]
+    pos = [0] * len(per2)
+    final = []
+    for (t, _, _) in sched:
+        final.append((t, per2[t][pos[t]]))
+        pos[t] += 1
+    return {"crashed": False, "trees": trees, "sched": final, "obs": obs, "errno": errno_ok, "nshow": nshow}
+
+
+def coq_sched_case(c):
+    return ("{| sd_trees := [%s];\n   sd_sched := [%s];\n   sd_obs := [%s];\n   sd_errno := [%s];\n   sd_nslots := %d |}" % (
+        "; ".join("(%d, %s)" % (t, coq_tree(tr)) for t, tr in enumerate(c["trees"])),
+        "; ".join("(%d, %s)" % (t, coq_op(o)) for t, o in c["sched"]),
+        "; ".join("(%s, %d, [%s])" % (u, idx, "; ".join(coq_word(w) for w in ws)) for (u, idx, ws) in c["obs"]),
+        "; ".join(coq.coq_bool(b) for b in c["errno"]), c["nshow"]))
 
 
 def run_shadow_batch(h, trees, env):
@@ -319,7 +388,7 @@ def coq_shadow_case(c):
 
 # ================================================================ xmm cases
 def gen_xmm(rng, kind):
-    """16 registers of 4 words (bits 0-63, 64-127, 128-191, 192-255) + a clobber"""
+    """16 vector registers of 8 words (word i = bits 64i..64i+63) + a clobber"""
     def word(k):
         if k == "zero":
             return 0
@@ -335,11 +404,11 @@ def gen_xmm(rng, kind):
         if hi is None:
             hi = word(rng.choice(["rnd", "rnd", "ones", "zero", "nan"]))
         if kind == "upper-zero":
-            u = (0, 0)
+            up = [0] * 6
         else:
-            u = (word(rng.choice(["rnd", "rnd", "ones", "nan"])), word(rng.choice(["rnd", "ones", "zero"])))
-        before.append((lo, hi) + u)
-    clobber = [tuple(rng.getrandbits(64) if rng.random() < 0.7 else 0 for _ in range(4)) for _ in range(16)]
+            up = [word(rng.choice(["rnd", "rnd", "ones", "nan", "zero"])) for _ in range(6)]
+        before.append(tuple([lo, hi] + up))
+    clobber = [tuple(rng.getrandbits(64) if rng.random() < 0.7 else 0 for _ in range(8)) for _ in range(16)]
     return before, clobber
 
 
@@ -347,11 +416,11 @@ def run_xmm(h, before, clobber):
     ws = []
     for r in before + clobber:
         ws += ["%x" % w for w in r]
-    rc, out, err = h.run(["YMM " + " ".join(ws)], 2)
+    rc, out, err = h.run(["VEC " + " ".join(ws)], 2)
     k = out[0].partition(" | ")[0].split()
-    avx = k[1] == "1"
-    vals = [int(x, 16) for x in k[2:66]]
-    return avx, [tuple(vals[4 * i:4 * i + 4]) for i in range(16)]
+    level = int(k[1])
+    vals = [int(x, 16) for x in k[2:130]]
+    return level, [tuple(vals[8 * i:8 * i + 8]) for i in range(16)]
 
 
 def run_hook_xmm(h, rng):
@@ -374,12 +443,33 @@ def run_hook_xmm(h, rng):
     return res
 
 
+def run_hook_vec(h, rng):
+    """mcount_entry / mcount_exit called with chosen whole vector registers (the widest the CPU has) while the libc
+    stand-in overwrites them and ends with vzeroupper -> [(level, hook, before, after)]"""
+    def words(regs):
+        return " ".join("%x" % w for r in regs for w in r)
+    b = [gen_xmm(rng, "rnd")[0] for _ in range(4)]
+    lines = ["P 1 100", "VE 0 1 " + words(b[0]), "P 2 101", "VE 1 2 " + words(b[1]), "VR 2 " + words(b[2]), "VR 1 " + words(b[3])]
+    rc, out, err = h.run(lines, 4)
+    res = []
+    for hook, bef, line in (("mcount_entry", b[0], out[1]), ("mcount_entry", b[1], out[3]),
+                            ("mcount_exit", b[2], out[4]), ("mcount_exit", b[3], out[5])):
+        k = line.partition(" | ")[0].split()
+        level = int(k[1])
+        vals = [int(x, 16) for x in k[-128:]]
+        nvis = [2, 4, 8][level]
+        # words that do not exist on this machine are not compared: present them as the model computes them
+        bef = [tuple(list(r[:nvis]) + [0] * (8 - nvis)) for r in bef]
+        res.append((level, hook, bef, [tuple(vals[8 * i:8 * i + 8]) for i in range(16)]))
+    return res
+
+
 def coq_pairs(l):
     return "[%s]" % "; ".join("(%d, %d)" % p for p in l)
 
 
-def coq_yregs(l):
-    return "[%s]" % "; ".join("((%d, %d), (%d, %d))" % p for p in l)
+def coq_vregs(l):
+    return "[%s]" % "; ".join("[%s]" % "; ".join("%d" % w for w in r) for r in l)
 
 
 PRE = """From Coq Require Import ZArith List Bool String.
@@ -389,17 +479,30 @@ Local Open Scope Z_scope.
 """
 
 
-def evaluate_chunk(ctx, scases, xcases, name, hcases=(), tcases=()):
+def evaluate_chunk(ctx, scases, xcases, name, hcases=(), tcases=(), ecases=(), dcases=(), ycases=()):
     defs = "Local Open Scope nat_scope.\nDefinition scases : list shadow_case := [\n%s\n].\nLocal Open Scope Z_scope.\n" % ";\n".join(coq_shadow_case(c) for c in scases)
     defs += "Definition xcases : list xmm_case := [\n%s\n].\n" % ";\n".join(
-        "{| xc_avx := %s; xc_before := %s; xc_clobber := %s; xc_after := %s |}" % (coq.coq_bool(v), coq_yregs(b), coq_yregs(c), coq_yregs(a))
+        "{| xc_level := %d%%nat; xc_before := %s; xc_clobber := %s; xc_after := %s |}" % (v, coq_vregs(b), coq_vregs(c), coq_vregs(a))
         for (v, b, c, a) in xcases)
     defs += "Definition hcases : list hook_xmm_case := [\n%s\n].\n" % ";\n".join(
         '{| hx_hook := "%s"%%string; hx_before := %s; hx_after := %s |}' % (hk, coq_pairs(b), coq_pairs(a))
         for (hk, b, a, _) in hcases)
     defs += "Local Open Scope nat_scope.\nDefinition tcases : list stop_case := [\n%s\n].\nLocal Open Scope Z_scope.\n" % ";\n".join(
         coq_stop_case(c) for c in tcases)
+    defs += "Local Open Scope nat_scope.\nDefinition ecases : list shadow_case := [\n%s\n].\nLocal Open Scope Z_scope.\n" % ";\n".join(
+        coq_shadow_case(c) for c in ecases)
+    defs += "Local Open Scope nat_scope.\nDefinition dcases : list sched_case := [\n%s\n].\nLocal Open Scope Z_scope.\n" % ";\n".join(
+        coq_sched_case(c) for c in dcases)
+    defs += "Definition ycases : list hook_vec_case := [\n%s\n].\n" % ";\n".join(
+        '{| hv_level := %d%%nat; hv_hook := "%s"%%string; hv_before := %s; hv_after := %s |}' % (lv, hk, coq_vregs(b), coq_vregs(a))
+        for (lv, hk, b, a) in ycases)
     res = coq.run_cases(ctx, name, PRE, defs, [
+        ("y_mismatch", "bad_indices hook_vec_agrees ycases 0"),
+        ("y_violations", "bad_indices hook_vec_ok ycases 0"),
+        ("d_mismatch", "bad_indices sched_agrees dcases 0"),
+        ("d_violations", "bad_indices sched_ok dcases 0"),
+        ("e_mismatch", "bad_indices est_agrees ecases 0"),
+        ("e_violations", "bad_indices est_ok ecases 0"),
         ("t_mismatch", "bad_indices stop_agrees tcases 0"),
         ("t_violations", "bad_indices stop_ok tcases 0"),
         ("s_mismatch", "bad_indices shadow_agrees scases 0"),
@@ -414,18 +517,21 @@ def evaluate_chunk(ctx, scases, xcases, name, hcases=(), tcases=()):
     return {k: coq.parse_nat_list(v) for k, v in res.items()}
 
 
-def evaluate(ctx, scases, xcases, name="cases", chunk=50, hcases=(), tcases=()):
+def evaluate(ctx, scases, xcases, name="cases", chunk=50, hcases=(), tcases=(), ecases=(), dcases=(), ycases=()):
     """model and checker evaluated by vm_compute inside Coq; chunks run in parallel coqc processes"""
     jobs = []
     for k, j in enumerate(range(0, max(len(scases), 1), chunk)):
         jobs.append((j, scases[j:j + chunk], xcases if k == 0 else []))
     with concurrent.futures.ThreadPoolExecutor(max_workers=6) as ex:
         rs = list(ex.map(lambda jb: evaluate_chunk(ctx, jb[1], jb[2], "%s_%d" % (name, jb[0]),
-                                                   hcases if jb[0] == 0 else (), tcases if jb[0] == 0 else ()), jobs))
+                                                   hcases if jb[0] == 0 else (), tcases if jb[0] == 0 else (),
+                                                   ecases if jb[0] == 0 else (), dcases if jb[0] == 0 else (),
+                                                   ycases if jb[0] == 0 else ()), jobs))
     if any(r is None for r in rs):
         return None
     res = {"s_mismatch": [], "s_violations": [], "x_mismatch": [], "x_violations": [], "h_mismatch": [], "h_violations": [],
-           "t_mismatch": [], "t_violations": []}
+           "t_mismatch": [], "t_violations": [], "e_mismatch": [], "e_violations": [],
+           "d_mismatch": [], "d_violations": [], "y_mismatch": [], "y_violations": []}
     for (j, _, _), r in zip(jobs, rs):
         res["s_mismatch"] += [j + i for i in r["s_mismatch"]]
         res["s_violations"] += [j + i for i in r["s_violations"]]
@@ -435,14 +541,20 @@ def evaluate(ctx, scases, xcases, name="cases", chunk=50, hcases=(), tcases=()):
         res["h_violations"] += r["h_violations"]
         res["t_mismatch"] += r["t_mismatch"]
         res["t_violations"] += r["t_violations"]
+        res["e_mismatch"] += r["e_mismatch"]
+        res["e_violations"] += r["e_violations"]
+        res["d_mismatch"] += r["d_mismatch"]
+        res["d_violations"] += r["d_violations"]
+        res["y_mismatch"] += r["y_mismatch"]
+        res["y_violations"] += r["y_violations"]
     return res
 
 
 # ================================================================ objdump monitor
 ALLOWED_SITES = [
     (r"^(mcount_return|dynamic_return|plthook_return|__xray_exit)$", r"^movdqu\s+(%xmm0,0x10\(%rsp\)|0x10\(%rsp\),%xmm0)$"),
-    (r"^mcount_save_arch_context(_sse|_avx)?(\.\w+)*$", r"^(movdqu\s+%xmm|vmovdqu\s+%ymm)[0-7],(0x[0-9a-f]+)?\(%r\w+\)$"),
-    (r"^mcount_restore_arch_context(_sse|_avx)?(\.\w+)*$", r"^(movdqu\s+(0x[0-9a-f]+)?\(%r\w+\),%xmm|vmovdqu\s+(0x[0-9a-f]+)?\(%r\w+\),%ymm)[0-7]$"),
+    (r"^mcount_save_arch_context(_sse|_avx|_avx512)?(\.\w+)*$", r"^(movdqu\s+%xmm|vmovdqu\s+%ymm|vmovdqu64\s+%zmm)[0-7],(0x[0-9a-f]+)?\(%r\w+\)$"),
+    (r"^mcount_restore_arch_context(_sse|_avx|_avx512)?(\.\w+)*$", r"^(movdqu\s+(0x[0-9a-f]+)?\(%r\w+\),%xmm|vmovdqu\s+(0x[0-9a-f]+)?\(%r\w+\),%ymm|vmovdqu64\s+(0x[0-9a-f]+)?\(%r\w+\),%zmm)[0-7]$"),
     (r"^mcount_(get_register_arg|arch_get_arg|get_struct_arg)(\.\w+)*$", r"^movs[sd]\s+%xmm[0-7],[^%]*\(%r\w+\)$"),
     (r"^mcount_arch_get_retval(\.\w+)*$", r"^(movsd\s+%xmm0,[^%]*\(%r\w+\)|fstpt\s+[^%]*\(%r\w+\)|fldt\s+[^%]*\(%r\w+\))$"),
 ]
@@ -513,17 +625,36 @@ def option_sets(scratch):
         "read-trigger": ["-T", "fd@read=proc/statm", "-T", "fc@read=proc/statm", "-T", "f1@read=proc/statm", "-T", "f3@read=page-fault"],
         "args-g": ["-A", "g@arg1/s", "-A", "q@arg1/s"],
         "args-f8": ["-A", "f8@arg1/s"],
+        "args-fa": ["-A", "fa@arg1/s"],
     }
 
 
-def compile_prog(workdir, name, src, mode, opt):
+def have_avx():
+    try:
+        return " avx2 " in open("/proc/cpuinfo").read()
+    except OSError:
+        return False
+
+
+def have_avx512():
+    try:
+        return " avx512f " in open("/proc/cpuinfo").read()
+    except OSError:
+        return False
+
+
+def compile_prog(workdir, name, src, mode, opt, cflags=()):
     c = os.path.join(workdir, name + ".c")
     if not os.path.exists(c):
         open(c, "w").write(src)
     exe = os.path.join(workdir, "%s.%s%s" % (name, mode, opt))
     if os.path.exists(exe):
         return exe
-    cmd = ["gcc", opt, "-g", "-w"] + G.MODES[mode][0] + ["-o", exe + ".tmp", c, "-lm", "-pthread"]
+    if "__m512d" in src and not cflags:
+        cflags = ["-mavx512f"]
+    elif "__m256d" in src and not cflags:
+        cflags = ["-mavx2"]
+    cmd = ["gcc", opt, "-g", "-w"] + list(cflags) + G.MODES[mode][0] + ["-o", exe + ".tmp", c, "-lm", "-pthread"]
     rc, out, err = sh(cmd, timeout=120)
     if rc != 0:
         raise RuntimeError("generated program does not compile (%s %s): %s" % (mode, opt, err[-1500:]))
@@ -603,12 +734,14 @@ def e2e_plan(ctx):
         threads = 4 if pi % 3 == 1 else 1
         classes = None if pi % 2 == 0 else rng.sample(list(G.CLASSES), 3) + ["vector"]
         params = {"seed": rng.getrandbits(40), "nfn": rng.choice([6, 8, 10]), "threads": threads,
-                  "classes": classes, "stress": pi % 2 == 0}
+                  "classes": classes, "stress": pi % 2 == 0, "avx": have_avx() and pi % 3 == 2}
         runs = []
         # the vector/script and vector/args combinations are the class of the fixed defect: always present
         combos = [("pg", "-O2", "script", False), ("fentry", "-O2", "args", False)] if pi < 2 else []
         while len(combos) < per:
-            mode = rng.choice([m for m in G.MODES if m != "fentry-nested"])
+            # -pg + stack realignment (AVX spills) is the known finding pg-drap-realigned-stack: AVX programs
+            # use the other three methods
+            mode = rng.choice([m for m in G.MODES if m != "fentry-nested" and not (params["avx"] and m == "pg")])
             oset = rng.choice(osets)
             if mode == "cyg" and oset in ("args", "auto-args", "recover"):
                 oset = "plain"
@@ -621,7 +754,7 @@ def make_prog(params):
     import random
     rng = random.Random(params["seed"])
     return G.gen_program(rng, nfn=params["nfn"], threads=params["threads"], classes=params["classes"],
-                         stress_regs=params["stress"])
+                         stress_regs=params["stress"], avx=params.get("avx", False))
 
 
 def e2e(ctx, objdir):
@@ -635,6 +768,8 @@ def e2e(ctx, objdir):
     cdir = os.path.join(VERIF, "corpus", "C01")
     for ci, fn in enumerate(sorted(f for f in os.listdir(cdir) if f.endswith(".json")) if os.path.isdir(cdir) else []):
         c = json.load(open(os.path.join(cdir, fn)))
+        if (c.get("needs_avx") and not have_avx()) or (c.get("needs_avx512") and not have_avx512()):
+            continue
         key = "c%d" % ci
         sources[key] = c["source"]
         jobs.append((key, {"corpus": c["name"], "seed": c["name"], "threads": 1}, c["source"],
@@ -712,6 +847,9 @@ def known_findings(ctx, objdir, work, osets):
     kdir = os.path.join(VERIF, "corpus", "C01", "known")
     for fn in sorted(os.listdir(kdir)) if os.path.isdir(kdir) else []:
         c = json.load(open(os.path.join(kdir, fn)))
+        if c.get("needs_avx") and not have_avx():
+            ctx.log("known finding %s needs an AVX machine: witness skipped" % c["key"])
+            continue
         exe = compile_prog(work, "k_" + c["name"], c["source"], c["mode"], c["opt"])
         dd = os.path.join(work, "k." + c["name"])
         nat = run_native(exe, dd + ".nat")
@@ -725,7 +863,7 @@ def known_findings(ctx, objdir, work, osets):
 
 # ================================================================ entry points
 def common_meta(ctx):
-    ctx.rule = ("cases = (a) generated call trees (<= 24 activations, depth <= 6; hooks none/-pg/-pg+recover/cygprof, "
+    ctx.rule = ("(see also the per-kind counters in boundary_hits: est:, threads=, finish:, hookvec:, xmm:level=) cases = (a) generated call trees (<= 24 activations, depth <= 6; hooks none/-pg/-pg+recover/cygprof, "
                 "tail chains 0-3) run on the real mcount_entry/mcount_exit/__cyg_profile_func_*; distinct = distinct "
                 "(tree, environment); non-trivial = at least one hooked activation; (b) xmm register files through the "
                 "real save/restore pair; (c) end-to-end: generated C program x build mode x -O x record options, "
@@ -739,7 +877,8 @@ def common_meta(ctx):
         "coq/theories/C01/Shadow.v: hand-written model of __mcount_entry/__mcount_exit/__plthook_entry/exit/"
         "__cygprof_entry/exit, mcount_auto_restore/rehook, mcount_rstack_restore/rehook (PLT frames are driven "
         "in-process on a fake module: libmcount/plthook.c is #included into the harness)",
-        "coq/theories/C01/ArchCtx.v: semantics of movsd/movq/movdqu/movups for the generated save/restore lists",
+        "coq/theories/C01/ArchCtx.v: semantics of movsd/movq/movdqu/movups/vmovdqu/vmovdqu64 on 512-bit registers for "
+        "the generated save/restore lists (legacy-SSE loads keep bits 128+, VEX/EVEX loads clear bits above the vector length)",
         "harness/c/c01_harness.c, props/c01.py, props/c01_progs.py (drivers, generators, comparison)",
         "gcc/binutils of the sandbox for the end-to-end programs and the objdump monitor",
     ]
@@ -750,14 +889,18 @@ def common_meta(ctx):
         "rsp (except the return slot handed to mcount_entry/plthook_entry) are left alone (System V ABI, "
         "compiler); xmm0-7 are what the generated save/restore pair gives back around the hook body (the six C "
         "wrappers; their bracket structure is re-read from the C text on every run and exercised in-process "
-        "with an xmm-clobbering libc stand-in); xmm8-15, AVX upper halves and x87 are NOT protected on paths "
-        "that reach libc; libmcount's own code is SSE-free (-mgeneral-regs-only, monitored by objdump)",
+        "with a libc stand-in that overwrites every vector register and ends with vzeroupper), all visible bits "
+        "of registers 0-7 on SSE/AVX/AVX-512 machines; registers 8-31, opmask registers and x87 are NOT protected "
+        "on paths that reach libc; libmcount's own code is SSE-free (-mgeneral-regs-only, monitored by objdump)",
         "mcount_find_code (called by __dentry__ without a wrapper) leaves all xmm registers alone",
         "-pg code keeps the parent's return slot at 8(%rbp) above the mcount call's own return address; at "
         "`call __fentry__` the parent's return slot is at 8(%rsp) (false for GNU C nested functions, which push "
         "%r10 first: known finding nested-function-mfentry, dedicated witness)",
         "return addresses of the program are never the address of mcount_return/dynamic_return/plthook_return",
         "no exception/longjmp/signal unwinding (C11), no fork/exec inside the hooks, mtdp->in_exception = false",
+        "the shadow state is per thread (mtd is thread-local) and thread stacks are disjoint",
+        "-pg code addresses its return slot as 8(%rbp) of the real frame (false after a DRAP stack realignment: known "
+        "finding pg-drap-realigned-stack, dedicated witness)",
         "dynamic linker lazy binding, thread schedules, compiler code generation: monitored end-to-end only",
     ]
 
@@ -806,7 +949,7 @@ def run(ctx):
         before, clobber = gen_xmm(ctx.rng, kind)
         avx, after = run_xmm(h, before, clobber)
         xcases.append((avx, before, clobber, after))
-        ctx.case(key=("xmm", tuple(before)), nontrivial=kind != "hi-zero", tags=["xmm:" + kind, "xmm:avx=%d" % avx],
+        ctx.case(key=("xmm", tuple(before)), nontrivial=kind != "hi-zero", tags=["xmm:" + kind, "xmm:level=%d" % avx],
                  sample={"xmm": {"before0": ["%x" % w for w in before[0]], "after0": ["%x" % w for w in after[0]]}}
                  if i == 0 else None)
     hcases = []
@@ -816,6 +959,11 @@ def run(ctx):
             ctx.case(key=("hookxmm", hc[0], tuple(hc[1])), tags=["hookxmm:" + hc[0]],
                      sample={"hook_xmm": {"hook": hc[0], "before0": ["%x" % w for w in hc[1][0]],
                                           "after0": ["%x" % w for w in hc[2][0]]}} if i == 0 and hc[0] == "mcount_exit" else None)
+    ycases = []
+    for i in range(ctx.n(4, 30)):
+        for hc in run_hook_vec(h, ctx.rng):
+            ycases.append(hc)
+            ctx.case(key=("hookvec", hc[1], tuple(hc[2])), tags=["hookvec:%s:level=%d" % (hc[1], hc[0])])
     tcases = []
     for i in range(ctx.n(30, 300)):
         tree = gen_tree(ctx.rng, ["tail", "pg", "plttail", "plt", "deep"][i % 5], maxd=4, budget=10)
@@ -829,11 +977,37 @@ def run(ctx):
         tcases.append(c)
         ctx.case(key=("stop", coq_tree(tree), c["cut"]), tags=["finish:in-process"] +
                  (["finish:tail-called-returns"] if "URet 1 (Real" in c["obs"] and any(o[0] == "E" and o[2] == c["slot"] for o in c["ops"][-1:]) else []))
-    ctx.log("ran %d call trees, %d xmm-pair, %d hook-call xmm and %d finish cases on libmcount"
-            % (len(scases), len(xcases), len(hcases), len(tcases)))
-    res = evaluate(ctx, [c for c in scases if not c["crashed"]], xcases, hcases=hcases, tcases=tcases)
-    ctx.log("model evaluated in Coq:", res)
-    verdict(ctx, [c for c in scases if not c["crashed"]], xcases, res, hcases, tcases)
+    ecases = []
+    for i in range(ctx.n(24, 300)):
+        tree = gen_tree(ctx.rng, SHAPES[i % len(SHAPES)], maxd=ctx.rng.choice([3, 5]), budget=ctx.rng.choice([6, 14]))
+        c = run_est_case(h, tree)
+        if c["crashed"]:
+            ctx.violation("libmcount crashed while driving a call tree under --estimate-return",
+                          {"kind": "est", "tree": json_tree(tree), "stderr": c["stderr"]}, True)
+            continue
+        ecases.append(c)
+        tags = set(["estimate-return"])
+        tree_tags(c["tree"], tags)
+        ctx.case(key=("est", coq_tree(c["tree"])), tags=sorted("est:" + t for t in tags if not t.startswith("leaf")))
+    dcases = []
+    for i in range(ctx.n(16, 200)):
+        nth = ctx.rng.choice([2, 2, 3, 4])
+        trees = [gen_tree(ctx.rng, ctx.rng.choice(["pg", "tail", "plt", "cygpg", "mixed"]), maxd=4, budget=8) for _ in range(nth)]
+        c = run_sched_case(h, trees, ctx.rng)
+        if c["crashed"]:
+            ctx.violation("libmcount crashed while several threads drove call trees",
+                          {"kind": "sched", "trees": [json_tree(t) for t in trees], "stderr": c["stderr"]}, True)
+            continue
+        dcases.append(c)
+        ctx.case(key=("sched", tuple(coq_tree(t) for t in trees), tuple(t for t, _ in c["sched"])),
+                 tags=["threads=%d" % nth, "schedule:switches=%s" % ("many" if sum(1 for a, b in zip(c["sched"], c["sched"][1:]) if a[0] != b[0]) > 10 else "few")],
+                 size=len(c["sched"]))
+    ctx.log("ran %d call trees, %d xmm-pair, %d hook-call xmm, %d finish, %d estimate-return and %d thread-schedule cases on libmcount"
+            % (len(scases), len(xcases), len(hcases), len(tcases), len(ecases), len(dcases)))
+    res = evaluate(ctx, [c for c in scases if not c["crashed"]], xcases, hcases=hcases, tcases=tcases, ecases=ecases, dcases=dcases,
+                   ycases=ycases)
+    ctx.log("model evaluated in Coq:", {k: v for k, v in (res or {}).items() if v} or "all agree, all accepted")
+    verdict(ctx, [c for c in scases if not c["crashed"]], xcases, res, hcases, tcases, ecases, dcases, ycases)
     # ---- monitors
     objdump_monitor(ctx, objdir)
     ctx.log("objdump monitor done")
@@ -844,9 +1018,41 @@ def run(ctx):
     ctx.extra["xmm_cases"] = len(xcases)
 
 
-def verdict(ctx, scases, xcases, res, hcases=(), tcases=()):
+def verdict(ctx, scases, xcases, res, hcases=(), tcases=(), ecases=(), dcases=(), ycases=()):
     if res is None:
         return
+    for i in res.get("y_violations", [])[:3]:
+        lv, hk, b, a = ycases[i]
+        ctx.violation("C01 violated: %s does not give back every bit of vector registers 0-7 (%s) when libc code it reaches "
+                      "uses the vector registers and ends with vzeroupper (vector arguments / return values of the traced "
+                      "function)" % (hk, ["xmm", "ymm", "zmm"][lv]),
+                      {"kind": "hookxmm", "hook": hk, "before": [list(map(hex, p)) for p in b],
+                       "after": [list(map(hex, p)) for p in a]}, True)
+    if res.get("y_mismatch") and not res.get("y_violations"):
+        lv, hk, b, a = ycases[res["y_mismatch"][0]]
+        ctx.violation("hook-call vector contract (Model.hook_call_vec with the generated wrappers and pairs) and the real %s disagree" % hk,
+                      {"kind": "hookxmm", "hook": hk, "before": [list(map(hex, p)) for p in b],
+                       "after": [list(map(hex, p)) for p in a]}, False)
+    for i in res.get("d_violations", [])[:3]:
+        c = dcases[i]
+        ctx.violation("C01 violated with several threads: a return did not go to its real caller or errno changed",
+                      {"kind": "sched", "trees": [json_tree(t) for t in c["trees"]], "schedule": [t for t, _ in c["sched"]],
+                       "observed": c["obs"][:200]}, True)
+    if res.get("d_mismatch") and not res.get("d_violations"):
+        c = dcases[res["d_mismatch"][0]]
+        ctx.violation("per-thread shadow-stack model (Shadow.run_sched) and libmcount disagree on %d thread schedules" % len(res["d_mismatch"]),
+                      {"kind": "sched", "trees": [json_tree(t) for t in c["trees"]], "schedule": [t for t, _ in c["sched"]],
+                       "observed": c["obs"][:200]}, False)
+    for i in res.get("e_violations", [])[:3]:
+        c = ecases[i]
+        ctx.violation("C01 violated under --estimate-return: a return did not go to its real caller, errno changed or a "
+                      "return-address slot was written",
+                      {"kind": "est", "tree": json_tree(c["tree"]), "observed": [(u, idx, ws) for (u, idx, ws) in c["obs"]][:200]}, True)
+    if res.get("e_mismatch") and not res.get("e_violations"):
+        c = ecases[res["e_mismatch"][0]]
+        ctx.violation("--estimate-return model (Shadow.run_op_est / inject_return) and libmcount disagree on %d call trees "
+                      "(mtd.idx / slots)" % len(res["e_mismatch"]),
+                      {"kind": "est", "tree": json_tree(c["tree"]), "observed": [(u, idx, ws) for (u, idx, ws) in c["obs"]][:200]}, False)
     for i in res.get("t_violations", [])[:3]:
         c = tcases[i]
         ctx.violation("C01 violated: after tracing was told to finish, a traced function did not return to its real "
@@ -876,7 +1082,7 @@ def verdict(ctx, scases, xcases, res, hcases=(), tcases=()):
     for i in res["x_violations"][:3]:
         v, b, cl, a = xcases[i]
         ctx.violation("C01 violated: mcount_save_arch_context/mcount_restore_arch_context do not give back %s "
-                      "(argument/return registers of the traced function)" % ("all 256 bits of ymm0-7" if v else "xmm0-7"),
+                      "(argument/return registers of the traced function)" % ["xmm0-7", "all 256 bits of ymm0-7", "all 512 bits of zmm0-7"][v],
                       {"kind": "xmm", "before": [list(map(hex, p)) for p in b], "clobber": [list(map(hex, p)) for p in cl],
                        "after": [list(map(hex, p)) for p in a]}, True)
     if res["s_mismatch"] and not res["s_violations"]:
@@ -919,6 +1125,13 @@ def replay(ctx, obj):
         res = evaluate(ctx, [], [(avx, before, clobber, after)], name="replay")
         ctx.log("replayed xmm case:", res)
         verdict(ctx, [], [(avx, before, clobber, after)], res)
+    elif kind == "est":
+        h = Harness(ctx, objdir)
+        c = run_est_case(h, tree_of_json(obj["tree"]))
+        ctx.case(key="replay", sample={"observed": c["obs"][:50]})
+        res = evaluate(ctx, [], [], name="replay", ecases=[c])
+        ctx.log("replayed estimate-return case:", res)
+        verdict(ctx, [], [], res, (), (), [c])
     elif kind == "stop":
         import random
         h = Harness(ctx, objdir)
